@@ -60,7 +60,10 @@ func Merge[T any](out chan<- T, in ...<-chan T) {
 		}
 		chosen, item, ok := reflect.Select(selectCases)
 		if ok {
-			out <- item.Interface().(T)
+			// item may hold a nil interface when T is an interface type; a single-result assertion
+			// would panic on it.
+			v, _ := item.Interface().(T)
+			out <- v
 		} else {
 			selectCases = xslices.RemoveUnordered(selectCases, chosen, 1)
 		}
